@@ -333,6 +333,7 @@ func (q *queue) Deliver(id string, blocks []*nom.DetailedMomentum) (err error) {
 	}
 	// Iterate over the downloaded blocks and add each of them
 	errs := make([]error, 0)
+	forged := false
 	for _, detailed := range blocks {
 		// Skip any blocks that were not requested
 		block := detailed.Momentum
@@ -344,6 +345,7 @@ func (q *queue) Deliver(id string, blocks []*nom.DetailedMomentum) (err error) {
 		// The height decides where the block goes and whether the hash chain is valid: only trust it if the hash commits to it
 		if block.ComputeHash() != hash {
 			errs = append(errs, fmt.Errorf("block %x does not match its hash", hash))
+			forged = true
 			continue
 		}
 		// If a requested block falls out of the range, the hash chain is invalid
@@ -363,6 +365,10 @@ func (q *queue) Deliver(id string, blocks []*nom.DetailedMomentum) (err error) {
 	// Return all failed or missing fetches to the queue
 	for hash, index := range request.Hashes {
 		q.hashQueue.Push(hash, float32(index))
+	}
+	// A block that does not match the hash it was requested by was forged by the peer that delivered it
+	if forged {
+		return errForgedBlock
 	}
 	// If none of the blocks were good, it's a stale delivery
 	if len(errs) != 0 {
